@@ -17,6 +17,7 @@ import ZnVerif.Ops.Parse
 import ZnVerif.Ops.C15
 import ZnVerif.Ops.C13
 import ZnVerif.Ops.Lex
+import ZnVerif.Ops.TextMethods
 
 open ZnVerif.Ops
 
@@ -29,6 +30,7 @@ def handlers : List (String → List String → Option String) := [
   C06.handle,
   C19.handle,
   C14.handle,
+  TextMethods.handle,
   C11.handle,
   Lex.handle,
   C13.handle,
